@@ -113,6 +113,21 @@ Proof.
 Qed.
 Print Assumptions C10_header_field_refuted.
 
+(* KNOWN FINDING C10-wal-zero-header-is-an-entry.  For every checksum function that maps the empty
+   string to 0 (CRC-32 does), a header with length 0 and checksum 0 - in particular sixteen zero
+   bytes - is a well-formed empty entry; with the real CRC-32 a header-only file followed by 32
+   zero bytes is read as two entries that were never appended. *)
+Theorem C10_zero_header_is_an_entry : forall (crc : bytes -> N), crc [] = 0 ->
+  forall ts rest, ts < U64 ->
+  decode_entry crc (entry_header 0 ts 0 ++ rest) = Ok (Some (Entry ts [] 0, 16)).
+Proof. intros crc H0 ts rest Hts. exact (decode_empty_header crc ts rest Hts H0). Qed.
+Print Assumptions C10_zero_header_is_an_entry.
+
+Example C10_zero_tail_read_as_entries :
+  wal_read crc32 (file_image 1 [] ++ repeat 0 32) = Ok (1, [Entry 0 [] 0; Entry 0 [] 0]).
+Proof. exact zero_tail_witness. Qed.
+Print Assumptions C10_zero_tail_read_as_entries.
+
 (* recover_all_entries = concatenation, in sequence order (stable), of each file's own result *)
 Theorem C10_recover_all_in_sequence_order : forall (crc : bytes -> N) st,
   recover_all crc st = Ok (concat (map (contrib crc) (sorted_files st))) /\
